@@ -101,6 +101,13 @@ func (r *Run) cleanup() { os.RemoveAll(r.Scratch) }
 
 func (r *Run) quick() bool { return r.Tier != "thorough" }
 
+// only reports whether the named family of a check is to run: all of them, unless the development aid
+// FOXCHECK_ONLY names one (such a partial run writes no evidence).
+func only(family string) bool {
+	v := os.Getenv("FOXCHECK_ONLY")
+	return v == "" || v == family
+}
+
 // pick returns q for the quick tier and t for the thorough tier.
 func pick[T any](r *Run, q, t T) T {
 	if r.quick() {
@@ -310,7 +317,12 @@ func (r *Run) finish() int {
 	}
 	b, _ := json.MarshalIndent(ev, "", " ")
 	os.MkdirAll(filepath.Join(verifDir, "evidence"), 0o755)
-	if err := os.WriteFile(filepath.Join(verifDir, "evidence", r.ID+".json"), b, 0o644); err != nil {
+	if os.Getenv("FOXCHECK_ONLY") != "" {
+		// development aid: a partial run of one family never replaces the evidence of a full run
+		delete(cov, "samples")
+		cb, _ := json.Marshal(cov)
+		outf("partial run (%s), no evidence written: %s\n", os.Getenv("FOXCHECK_ONLY"), cb)
+	} else if err := os.WriteFile(filepath.Join(verifDir, "evidence", r.ID+".json"), b, 0o644); err != nil {
 		outln("cannot write evidence:", err)
 		return exitTool
 	}
